@@ -1,7 +1,7 @@
 (* C08 - property theorems.  Only statements closed by [exact]; proofs live in Delayed/*.v. *)
 From Coq Require Import List ZArith String Bool Arith.
 Import ListNotations.
-From NV Require Import Delayed.Model Delayed.Spec Delayed.Tracked Delayed.Rel Delayed.Main Delayed.Refuted Delayed.ReachTable Delayed.MergeTracked.
+From NV Require Import Delayed.Model Delayed.Spec Delayed.Tracked Delayed.Rel Delayed.Main Delayed.Refuted Delayed.ReachTable Delayed.MergeTracked Delayed.Stack.
 
 (* pending_tracked, one statement per primitive *)
 Theorem C08_pending_tracked_at : forall es p i,
@@ -166,3 +166,55 @@ Theorem C08_reach_table_correct : forall o zs p b m,
   reach_table o (List.length zs) p = Some b ->
   reaches (S (S (S (S m)))) (KArr (nums zs)) o [p] = b.
 Proof. exact reach_table_correct. Qed.
+
+(* several delayed contracts on the same container: the pending list guards like the conjunction,
+   and only the set of contracts matters (a duplicate may be dropped, a distinct contract may not) *)
+Theorem C08_stack_conj : forall n p t, forallb flat (map snd p) = true ->
+  eval n (tctrs p t) =
+  match eval n t with
+  | Err e => Err e
+  | Ok v => match first_reject v p with None => Ok v | Some b => Err (blame b) end
+  end.
+Proof. exact stack_conj. Qed.
+
+Theorem C08_stack_accepts_iff_all : forall n p t v, forallb flat (map snd p) = true ->
+  eval n t = Ok v ->
+  (eval n (tctrs p t) = Ok v <-> forallb (fun c => accepts c v) (map snd p) = true).
+Proof. exact stack_accepts_iff_all. Qed.
+
+Theorem C08_dedup_unobservable : forall n p q t,
+  forallb flat (map snd p) = true -> forallb flat (map snd q) = true ->
+  (forall c, In c (map snd p) <-> In c (map snd q)) ->
+  res_sim (eval n (tctrs p t)) (eval n (tctrs q t)).
+Proof. exact dedup_unobservable. Qed.
+
+Theorem C08_push_dedup_unobservable : forall n p b c t,
+  forallb flat (map snd p) = true -> In c (map snd p) ->
+  res_sim (eval n (tctrs (p ++ [(b, c)]) t)) (eval n (tctrs p t)).
+Proof. exact push_dedup_unobservable. Qed.
+
+Theorem C08_drop_distinct_refuted :
+  exists n p b c t, forallb flat (map snd (p ++ [(b, c)])) = true /\
+    ~ res_sim (eval n (tctrs (p ++ [(b, c)]) t)) (eval n (tctrs p t)).
+Proof. exact drop_distinct_refuted. Qed.
+
+Theorem C08_stack_set_equiv : forall n xs cs1 cs2 o,
+  supported o -> forallb atom_plain xs = true ->
+  forallb flat cs1 = true -> forallb flat cs2 = true ->
+  (forall c, In c cs1 <-> In c cs2) ->
+  res_sim (run_stack n (KArr xs) (map CArr cs1) o) (run_stack n (KArr xs) (map CArr cs2) o).
+Proof. exact stack_set_equiv. Qed.
+
+Theorem C08_reached_blames_stack : forall n xs cs o i a v,
+  supported o -> forallb flat cs = true ->
+  others_accepted cs i xs = true ->
+  atom_val a = Some v -> forallb (fun c => accepts c v) cs = false ->
+  reaches n (KArr xs) o [i] = true ->
+  exists e, run_stack n (plug (KArr xs) [i] a) (map CArr cs) o = Err e /\ is_blame e = true.
+Proof. exact reached_blames_stack. Qed.
+
+Theorem C08_laziness_stack : forall n k Ts o pos a,
+  supported o -> container_ok k ->
+  is_probe (run_stack n (plug k pos AProbe) Ts o) = false ->
+  res_sim (run_stack n (plug k pos AProbe) Ts o) (run_stack n (plug k pos a) Ts o).
+Proof. exact laziness_stack. Qed.
